@@ -255,6 +255,17 @@ pub proof fn lemma_cnt_sym_same(d1: Seq<Entry>, d2: Seq<Entry>, s: int, upto: in
     decreases upto,
 { if upto > 0 { lemma_cnt_sym_same(d1, d2, s, upto - 1); } }
 
+/// RFC 8878 4.1.1, spreading: walk the positions 0, step, 2*step, .. (mod table size), skip the cells reserved for less-than-one
+/// symbols; the r-th cell visited that way (r = rank_of) belongs to the symbol whose cumulative probability interval contains r
+pub open spec fn visited_before(c: int, t: int, neg: int) -> Seq<bool> { Seq::new(t as nat, |c2: int| c2 < neg && step_index(c2, t) < step_index(c, t)) }
+pub open spec fn rank_of(c: int, t: int, neg: int) -> int { numw(visited_before(c, t, neg), t) }
+pub open spec fn spread_symbol_ok(probs: Seq<i32>, t: int, neg: int, c: int, sym: int) -> bool {
+    0 <= sym < probs.len() && sum_pos(probs.take(sym)) <= rank_of(c, t, neg) < sum_pos(probs.take(sym + 1))
+}
+/// RFC 8878 4.1.1, state arithmetic (baseline, number of bits) of the k-th state of a symbol with probability p in a table of ts cells:
+/// abstract here; Kani obligation F1.f1_calc_baseline proves the real calc_baseline_and_numbits equal to the RFC formula (contracts/spec/30_rfc_fse_tables.rs)
+pub uninterp spec fn rfc_state(ts: u32, p: u32, k: u32) -> (u32, u8);
+
 /// the state of the spread walk after `j` steps, while symbol `idx` has received `k` of its cells
 pub open spec fn spread_state(d: Seq<Entry>, written: Seq<bool>, probs: Seq<i32>, t: int, neg: int, j: int, idx: int, k: int) -> bool {
     &&& d.len() == t && written.len() == t
@@ -263,10 +274,13 @@ pub open spec fn spread_state(d: Seq<Entry>, written: Seq<bool>, probs: Seq<i32>
     &&& numw(written, t) == sum_pos(probs.take(idx)) + k
     &&& forall|c: int| 0 <= c < t && #[trigger] written[c] ==> d[c].symbol <= idx && d[c].symbol < probs.len() && probs[d[c].symbol as int] > 0
     &&& forall|s: int| 0 <= s < probs.len() ==> #[trigger] cntw(d, written, s, t) == (if s < idx { posp(probs[s]) } else if s == idx { k } else { 0 })
+    &&& forall|c: int| 0 <= c < t && #[trigger] written[c] ==> spread_symbol_ok(probs, t, neg, c, d[c].symbol as int)
 }
 /// the cells of the less-than-one symbols (filled from the top by the first loop) are final
-pub open spec fn top_ok(d: Seq<Entry>, neg: int, t: int, al: u8, max_symbol: u8) -> bool {
+pub open spec fn top_ok(d: Seq<Entry>, probs: Seq<i32>, neg: int, t: int, al: u8, max_symbol: u8) -> bool {
     forall|c: int| neg <= c < t ==> (#[trigger] d[c]).num_bits == al && d[c].base_line == 0 && d[c].symbol <= max_symbol
+        // RFC: the i-th less-than-one symbol (in symbol order) owns cell t - 1 - i
+        && d[c].symbol < probs.len() && probs[d[c].symbol as int] == -1 && c == t - 1 - num_neg(probs.take(d[c].symbol as int))
 }
 /// the walk bijection facts, stated once
 pub open spec fn walk_facts(t: int) -> bool {
@@ -290,6 +304,7 @@ pub fn calc_baseline_and_numbits(num_states_total: u32, num_states_symbol: u32, 
     ensures tsize(5) == num_states_total ==> r.1 <= 5, tsize(6) == num_states_total ==> r.1 <= 6, tsize(7) == num_states_total ==> r.1 <= 7,
         tsize(8) == num_states_total ==> r.1 <= 8, r.1 <= 9,
         r.0 + vstd::arithmetic::power2::pow2(r.1 as nat) <= num_states_total,
+        r == rfc_state(num_states_total, num_states_symbol, state_number),
 { unimplemented!() }
 
 impl FSETable {
@@ -317,6 +332,22 @@ impl FSETable {
                 && forall|i: int| 0 <= i < final(self).symbol_probabilities@.len() ==> #[trigger] final(self).symbol_probabilities@[i] >= -1,
 
     { unimplemented!() }
+
+    /// the decoding table is the one RFC 8878 4.1.1 defines for (accuracy_log, symbol_probabilities): symbol, bit count and baseline of every state
+    pub open spec fn table_is_rfc(&self) -> bool {
+        let t = tsize(self.accuracy_log as int);
+        let probs = self.symbol_probabilities@;
+        let d = self.decode@;
+        let neg = t - num_neg(probs);
+        &&& d.len() == t
+        // cells of the less-than-one symbols, from the top
+        &&& forall|c: int| neg <= c < t ==> (#[trigger] d[c]).num_bits == self.accuracy_log && d[c].base_line == 0
+                && d[c].symbol < probs.len() && probs[d[c].symbol as int] == -1 && c == t - 1 - num_neg(probs.take(d[c].symbol as int))
+        // all other cells: symbol by the spread walk, state arithmetic by rank among the symbol's cells in cell order
+        &&& forall|c: int| 0 <= c < neg ==> spread_symbol_ok(probs, t, neg, c, (#[trigger] d[c]).symbol as int)
+                && probs[d[c].symbol as int] > 0
+                && (d[c].base_line, d[c].num_bits) == rfc_state(t as u32, probs[d[c].symbol as int] as u32, cnt_sym(d, d[c].symbol as int, c) as u32)
+    }
 
     pub fn build_decoder(&mut self, source: &[u8], max_log: u8) -> (r: Result<usize, FSETableError>)
         // contract of FSETable::build_decoder: PROVED in unit F2 (on the verbatim body), ASSUMED wherever the table type is abstract (Q2, HU2V)
@@ -366,7 +397,7 @@ impl FSETable {
         ensures
             final(self).max_symbol == old(self).max_symbol, final(self).accuracy_log == old(self).accuracy_log,
             final(self).symbol_probabilities == old(self).symbol_probabilities,
-            r is Ok ==> final(self).table_wf(),
+            r is Ok ==> final(self).table_wf() && final(self).table_is_rfc(),
             (r is Err) <==> old(self).symbol_probabilities@.len() > old(self).max_symbol + 1,
 {
         let ghost probs = self.symbol_probabilities@;
@@ -412,7 +443,7 @@ impl FSETable {
                 self.symbol_probabilities@ == probs, n == probs.len(), n <= msym + 1,
                 num_neg(probs) <= t,
                 negative_idx == t - num_neg(probs.take(symbol as int)),
-                top_ok(self.decode@, negative_idx as int, t, al, msym),
+                top_ok(self.decode@, probs, negative_idx as int, t, al, msym),
 {
             proof {
                 lemma_take_step(probs, symbol as int);
@@ -454,7 +485,7 @@ impl FSETable {
                 negative_idx == sum_pos(probs), negative_idx <= t,
                 position == w(j, t), position < t, negative_idx > 0 ==> position < negative_idx,
                 spread_state(self.decode@, written, probs, t, negative_idx as int, j, idx as int, 0),
-                top_ok(self.decode@, negative_idx as int, t, al, msym),
+                top_ok(self.decode@, probs, negative_idx as int, t, al, msym),
             decreases n - idx,
 {
             proof {
@@ -479,7 +510,7 @@ impl FSETable {
                     sum_pos(probs.take(idx as int)) + prob <= negative_idx,
                     position == w(j, t), position < negative_idx,
                     spread_state(self.decode@, written, probs, t, negative_idx as int, j, idx as int, it.index() as int),
-                    top_ok(self.decode@, negative_idx as int, t, al, msym),
+                    top_ok(self.decode@, probs, negative_idx as int, t, al, msym),
 {
                 let ghost k0 = it.index() as int;
                 let ghost d0 = self.decode@;
@@ -511,6 +542,13 @@ impl FSETable {
                     assert forall|c: int| 0 <= c < t implies (#[trigger] written[c] <==> (c < negative_idx && step_index(c, t) < j + 1)) by {
                         if c != c0 && c < negative_idx { assert(w(step_index(c, t), t) == c); }
                     }
+                    // the cell just written is the (number of cells written before)-th cell of the walk
+                    assert(visited_before(c0, t, negative_idx as int) =~= w0);
+                    assert(rank_of(c0, t, negative_idx as int) == sum_pos(probs.take(idx as int)) + k0);
+                    lemma_take_step(probs, idx as int);
+                    assert(k0 < prob);
+                    assert(e.symbol == idx);
+                    assert(spread_symbol_ok(probs, t, negative_idx as int, c0, e.symbol as int));
                     lemma_w_next(j, t);
                     j = j + 1;
                 }
@@ -548,7 +586,8 @@ impl FSETable {
             assert(probs.take(n) =~= probs);
             lemma_numw_above(written, negative_idx as int, t);
             lemma_numw_full(written, negative_idx as int);
-            assert forall|c: int| 0 <= c < negative_idx implies (#[trigger] d2[c]).symbol < n && probs[d2[c].symbol as int] > 0 by { assert(written[c]); }
+            assert forall|c: int| 0 <= c < negative_idx implies (#[trigger] d2[c]).symbol < n && probs[d2[c].symbol as int] > 0
+                && spread_symbol_ok(probs, t, negative_idx as int, c, d2[c].symbol as int) by { assert(written[c]); }
             assert forall|s: int| 0 <= s < n implies #[trigger] cnt_sym(d2, s, negative_idx as int) == posp(probs[s]) by {
                 lemma_cntw_above(d2, written, s, negative_idx as int, t);
                 lemma_cntw_is_cnt_sym(d2, written, s, negative_idx as int);
@@ -567,8 +606,11 @@ impl FSETable {
                 forall|c: int| 0 <= c < negative_idx ==> (#[trigger] d2[c]).symbol < n && probs[d2[c].symbol as int] > 0,
                 forall|s: int| 0 <= s < n ==> #[trigger] cnt_sym(d2, s, negative_idx as int) == posp(probs[s]),
                 forall|s: int| 0 <= s < n ==> #[trigger] self.symbol_counter@[s] == cnt_sym(d2, s, idx as int),
-                forall|c: int| 0 <= c < idx ==> (#[trigger] self.decode@[c]).num_bits <= al && self.decode@[c].base_line + vstd::arithmetic::power2::pow2(self.decode@[c].num_bits as nat) <= t,
-                top_ok(self.decode@, negative_idx as int, t, al, msym),
+                forall|c: int| 0 <= c < idx ==> (#[trigger] self.decode@[c]).num_bits <= al && self.decode@[c].base_line + vstd::arithmetic::power2::pow2(self.decode@[c].num_bits as nat) <= t
+                    && (self.decode@[c].base_line, self.decode@[c].num_bits) == rfc_state(t as u32, probs[d2[c].symbol as int] as u32, cnt_sym(d2, d2[c].symbol as int, c) as u32),
+                forall|c: int| 0 <= c < negative_idx ==> spread_symbol_ok(probs, t, negative_idx as int, c, (#[trigger] d2[c]).symbol as int),
+                negative_idx == t - num_neg(probs),
+                top_ok(self.decode@, probs, negative_idx as int, t, al, msym),
 {
             let ghost sy = self.decode@[idx as int].symbol as int;
             proof {
@@ -600,6 +642,14 @@ impl FSETable {
             }) by {
                 if i < negative_idx { assert(self.decode@[i].symbol == d2[i].symbol); }
             }
+            let d = self.decode@;
+            assert forall|c: int| 0 <= c < negative_idx implies spread_symbol_ok(probs, t, negative_idx as int, c, (#[trigger] d[c]).symbol as int)
+                && probs[d[c].symbol as int] > 0
+                && (d[c].base_line, d[c].num_bits) == rfc_state(t as u32, probs[d[c].symbol as int] as u32, cnt_sym(d, d[c].symbol as int, c) as u32) by {
+                assert(d[c].symbol == d2[c].symbol);
+                lemma_cnt_sym_same(d, d2, d[c].symbol as int, c);
+            }
+            assert(self.table_is_rfc());
         }
         Ok(())
     }
